@@ -166,6 +166,34 @@ Definition glue_C10 (k : string) (a o : list value) : option verdict :=
                     (C10_cookie_ok cb0 key0 {| sc_algo := algo; sc_s2c := s2c; sc_c2s := c2s |} cb key res))
         | None => None end
     | _, _ => None end
+  else if is k "ck.hist" then
+    (* several cookies opened one after the other; the results are read after the last
+       opening: each must still be what its own opening yields *)
+    match a, o with
+    | [VL items; VL tab], [VL results] =>
+        match table_of tab with
+        | Some t =>
+            let step := fun (it : value) =>
+              match it with
+              | VL [VB cb0; VB key0; VZ algo; VB s2c; VB c2s; VB cb; VB key] =>
+                  Some (cookie_open (open_tab t) cb key, (cb0, key0, {| sc_algo := algo; sc_s2c := s2c; sc_c2s := c2s |}, cb, key))
+              | _ => None end in
+            let fix go (its res : list value) : option (list value * bool) :=
+              match its, res with
+              | [], [] => Some ([], true)
+              | it :: its', VL [VZ oc; VZ oalgo; VB os2c; VB oc2s] :: res' =>
+                  match step it, go its' res' with
+                  | Some (r, (cb0, key0, c0, cb, key)), Some (es, ok) =>
+                      let obs := if oc =? 0 then Some {| sc_algo := oalgo; sc_s2c := os2c; sc_c2s := oc2s |} else None in
+                      Some (VL (sc_values r) :: es, ok && C10_cookie_ok cb0 key0 c0 cb key obs)
+                  | _, _ => None end
+              | _, _ => None
+              end in
+            match go items results with
+            | Some (es, ok) => Some (functional [VL es] o ok)
+            | None => None end
+        | None => None end
+    | _, _ => None end
   else if is k "ck.tlv" then
     (* EncryptedServerCookie.Decode alone, and re-encoding of what it decoded *)
     match a with
@@ -175,6 +203,21 @@ Definition glue_C10 (k : string) (a o : list value) : option verdict :=
                           | Ok ec => [VZ 0; VZ (ec_id ec); VB (ec_nonce ec); VB (ec_ct ec); VB (ec_encode ec)]
                           | _ => [VZ (code_of r); VZ 0; VB []; VB []; VB []] end) o true)
     | _ => None end
+  else if is k "srv.ip" then
+    (* real IP listener: args honest packets, datagram, valid server keys [id key], AEAD answers;
+       observed: replied, and whether the reply verified at the client *)
+    match a, o with
+    | [VL hs; VB b; VL keys; VL tab], [VZ replied; VZ verified] =>
+        match honests_of hs, table_of tab with
+        | Some hs, Some t =>
+            let getkey := fun id => match find (fun kv => match kv with VL [VZ i; VB _] => i =? id | _ => false end) keys with
+                                    | Some (VL [_; VB kb]) => Some kb
+                                    | _ => None end in
+            let r := server_nts (open_tab t) getkey b in
+            let e := match r with Ok _ => 1 | _ => 0 end in
+            Some (functional [VZ e; VZ e] o (C10_listener_ok hs b (negb (replied =? 0)) (negb (verified =? 0))))
+        | _, _ => None end
+    | _, _ => None end
   else if is k "ke.export" then
     match a, o with
     | [VL tab], [VB cs2c; VB cc2s; VB ss2c; VB sc2s] =>
